@@ -43,6 +43,34 @@ func consumedAll(text string) bool {
 	return ec.n == 0 && stream.LA(1) == antlr.TokenEOF
 }
 
+// ResetParserCaches empties the prediction caches of coca's generated Java parser (the per-decision DFAs and
+// the shared prediction-context cache, both process-global memo tables that only ever grow: about 0.6 MB per
+// unusual file). They are reached through exported API only (a parser's Interpreter shares the static slice and
+// the static cache object) and hold no results, so clearing them changes the memory of a long-lived worker
+// and nothing else. Without it a worker of the thorough tier grows to several GB.
+func ResetParserCaches() {
+	p := parser.NewJavaParser(antlr.NewCommonTokenStream(parser.NewJavaLexer(antlr.NewInputStream("")), antlr.TokenDefaultChannel))
+	in := p.GetInterpreter()
+	dfas := in.DecisionToDFA()
+	atn := in.ATN()
+	for i := range dfas {
+		dfas[i] = antlr.NewDFA(atn.DecisionToState[i], i)
+	}
+	*in.SharedContextCache() = *antlr.NewPredictionContextCache()
+}
+
+var casesInProcess int
+
+// Housekeeping is called once per case: every resetEvery cases of this process the parser caches are emptied.
+const resetEvery = 60
+
+func Housekeeping() {
+	casesInProcess++
+	if casesInProcess%resetEvery == 0 {
+		ResetParserCaches()
+	}
+}
+
 // Accept is the parser-acceptance filter: common.JavaSyntaxErrors reports no error and the whole input
 // was consumed. A panic inside the generated parser / the antlr runtime is reported separately.
 func Accept(text string) (ok bool, why string, parserPanic string) {
